@@ -15,7 +15,7 @@ META = {
     'rule': 'seeded random objects of the six kinds x n in {0,1,2,3,(4)}; the enumerated set is compared with (i) the Lean model, '
             '(ii) the set {w over Sigma, |w|<=n : independent oracle accepts w}, (iii) generate_language; PDA: closure limit 6 and '
             'equality required only when the Lean model reports no truncation; TM: budgets {5,50}; non-trivial = enumeration with >=2 '
-            'words and n>=1; distinct by (object, n); also regexps over {0,1}, unit-chain and near-CNF grammars (CNF-shaped rules, grammar not in CNF), PDAs with ambiguous multi-character stack symbols and fan-out; every untruncated enumeration is additionally compared with the library\'s own acceptance test on a sample of words',
+            'words and n>=1; distinct by (object, n); also regexps over {0,1}, unit-chain and near-CNF grammars (CNF-shaped rules, grammar not in CNF), PDAs with ambiguous multi-character stack symbols and fan-out; every untruncated enumeration is additionally compared with the library\'s own acceptance test on a sample of words; grammars whose shortest words come from deep thin derivations (n up to 9); a PDA with a finite closure of 150 configurations under the default limit',
     'assumptions': ['valid objects (constructors); single-character symbols'],
     'trusted_base': ['Spec: Gamba/Spec/*.lean'],
 }
@@ -46,6 +46,11 @@ def cases(ctx):
         yield {'kind': 'cfg', 'X': gen.near_cnf_cfg(rng), 'ns': [0, 1, 2, 3]}
     for i in range(20 * K):
         yield {'kind': 'cfg', 'X': gen.cnf_with_unproductive(rng), 'ns': [0, 1, 2, 3]}
+    for i in range(8 * K):        # shallow-bushy vs deep-thin alternatives: words of length 6-9 matter
+        yield {'kind': 'cfg', 'X': gen.doubling_cfg(rng), 'ns': [5, 6, 7, 8, 9]}
+    # a finite epsilon closure of 100-400 configurations AFTER reading a symbol, under the default closure limit
+    for L in ([150] if not thorough else [120, 150, 400]):
+        yield {'kind': 'pda', 'X': late_chain_pda(L), 'ns': [1, 2], 'limit': 1000}
     for k in range(0, 3):          # symbols that print like the constants 0 and 1
         for r in gen.regexps_of_size(k, ['0', '1']):
             if k < 2 or rng.random() < (0.05 if not thorough else 0.5):
@@ -58,6 +63,15 @@ OPS = {'dfa': ('dfa_words', 'D'), 'nfa': ('nfa_words', 'N'), 'regexp': ('regexp_
        'cfg': ('cfg_words', 'G'), 'pda': ('pda_words', 'P')}
 
 
+def late_chain_pda(L):
+    """s -a-> c0, then an epsilon chain of L push / pop moves, then c<L> -b-> f: the closure after reading 'a' has L+1 configurations"""
+    Q = ['s'] + ['c%d' % i for i in range(L + 1)] + ['f']
+    delta = [['s', 'a', '_', [['c0', '_']]]]
+    delta += [['c%d' % i, '_', '_' if i % 2 == 0 else 'x', [['c%d' % (i + 1), 'x' if i % 2 == 0 else '_']]] for i in range(L)]
+    delta.append(['c%d' % L, 'b', '_', [['f', '_']]])
+    return {'Q': Q, 'Sigma': ['a', 'b'], 'Gamma': ['x'], 'delta': delta, 'q0': 's', 'F': ['f'], 'eps': '_', 'dd': True}
+
+
 def lean_requests(c):
     op, key = OPS[c['kind']]
     reqs = []
@@ -66,7 +80,7 @@ def lean_requests(c):
         if c['kind'] == 'tm':
             r['k'] = c['k']
         if c['kind'] == 'pda':
-            r['limit'] = 6
+            r['limit'] = c.get('limit', 6)
         reqs.append(r)
     return reqs
 
@@ -124,7 +138,7 @@ def judge(ctx, c, answers):
     f = {'dfa': dfa_words_up_to_n, 'nfa': nfa_words_up_to_n, 'regexp': regexp_words_up_to_n, 'cfg': cfg_words_up_to_n,
          'pda': pda_words_up_to_n}.get(c['kind'])
     old = GambaTools.pda_epsilon_closure_max_iterations
-    GambaTools.pda_epsilon_closure_max_iterations = 6
+    GambaTools.pda_epsilon_closure_max_iterations = c.get('limit', 6)
     res = []
     try:
         for n, la in zip(c['ns'], answers):
